@@ -229,6 +229,7 @@ def build(ctx):
     wrapper_obligations(ctx, pyx)
     # ---- bounded run-time contracts on the compiled classes -------------------------------------------------------------------
     t0 = time.time()
+    xyz_files_standin(ctx)
     for b in nat.bounded_checks(tab, ctx.seed, ctx.tier):
         ctx.add_bounded(b["ident"], b["domain"], b["evaluations"], b["distinct"], b["failures"], rule=b["rule"],
                         samples=[{"id": "C05/" + b["ident"], "tag": "B", "domain": b["domain"][:300], "evaluations": b["evaluations"], "failures": len(b["failures"])}])
@@ -1248,3 +1249,40 @@ def wrapper_obligations(ctx, pyx):
 def farr_int(vals):
     from pyvc.api import iarr
     return iarr(list(vals))
+
+
+def xyz_files_standin(ctx):
+    """StockholderWeight.from_xyz_files(f1, f2): f1 is the interior, f2 the exterior (added after a seeded change swapped them)."""
+    import os
+    import tempfile
+    from chmpy.interpolate.density import StockholderWeight, PromoleculeDensity
+    rng = np.random.default_rng(ctx.seed + 505)
+    d = tempfile.mkdtemp(prefix="c05_")
+    fails, evals = [], 0
+    try:
+        f1, f2 = os.path.join(d, "a.xyz"), os.path.join(d, "b.xyz")
+        open(f1, "w").write("3\nwater\nO 0.0 0.0 0.0\nH 0.96 0.0 0.0\nH -0.24 0.93 0.0\n")
+        open(f2, "w").write("2\nCO\nC 3.1 0.2 0.1\nO 4.2 0.3 0.0\n")
+        sw = StockholderWeight.from_xyz_files(f1, f2)
+        a, b = PromoleculeDensity.from_xyz_file(f1), PromoleculeDensity.from_xyz_file(f2)
+        pts = rng.uniform(-1.5, 5.5, (400, 3)).astype(np.float32)
+        keep = np.ones(len(pts), dtype=bool)
+        for p_ in np.vstack([a.positions, b.positions]):
+            keep &= np.linalg.norm(pts - p_, axis=1) > 0.3
+        pts = pts[keep]
+        w = np.asarray(sw.weights(pts), dtype=float)
+        ra, rb = np.asarray(a.rho(pts), dtype=float), np.asarray(b.rho(pts), dtype=float)
+        want = ra / (ra + rb)
+        evals = len(pts)
+        bad = np.where(np.abs(w - want) > 5e-5)[0]
+        if len(bad):
+            k = int(bad[0])
+            fails.append({"input": {"interior_file": "water (3 atoms)", "exterior_file": "CO at 3-4 A", "point": pts[k].tolist()},
+                          "observed": {"weight": float(w[k]), "interior/(interior+exterior)": float(want[k]), "exterior share": float(1 - want[k])},
+                          "clause": "from_xyz_files(f1, f2): the weight is the share of the atoms of f1", "key": "from_xyz_files"})
+    finally:
+        for f in os.listdir(d):
+            os.unlink(os.path.join(d, f))
+        os.rmdir(d)
+    ctx.add_bounded("density.StockholderWeight.from_xyz_files/bounded/interior_is_first_file", "two different xyz files, 400 seeded points at least 0.3 A from every nucleus", evals, evals, fails,
+                    rule="points evaluated")
